@@ -31,7 +31,9 @@ CONSTANTS Servers,          \* {"a","b","c"}
           MaxInst,          \* instances per behaviour
           Barrier,          \* applyOperation issues the Raft barrier before the precondition check (code: TRUE)
           AcqBarrier,       \* leadershipAcquired issues the barrier before subscribing (code: TRUE)
-          NotLeaderPanics   \* leadershipAcquired of a server that is deposed already: ErrNotLeader -> panic (shipped: TRUE)
+          NotLeaderPanics,  \* leadershipAcquired of a server that is deposed already: ErrNotLeader -> panic (shipped: TRUE)
+          ApplyRefuses      \* FSM Apply refuses an entry whose stream / partition is not in the required state
+                            \* (repaired adbfb33: TRUE; shipped: FALSE = the entry fails in apply and every server panics)
 
 VARIABLES log,       \* committed commands: [op, x, L, E, r]   (r = request that proposed it: ghost)
           applied,   \* [Servers -> 0..Len(log)]
@@ -58,19 +60,22 @@ NoLp == [w |-> FALSE, bar |-> 0]
 \* metadata = fold of the applied prefix
 NoMeta == [ex |-> FALSE, ld |-> "-", le |-> 0, isr |-> {}, bad |-> FALSE]
 
+Bad(M) == IF ApplyRefuses THEN M ELSE [M EXCEPT !.bad = TRUE]
 Eff(e, M, k) ==
   IF M.bad THEN M
-  ELSE CASE e.op = "create" -> IF M.ex THEN [M EXCEPT !.bad = TRUE]
+  ELSE CASE e.op = "create" -> IF M.ex THEN Bad(M)
                                ELSE [ex |-> TRUE, ld |-> e.x, le |-> k, isr |-> Servers, bad |-> FALSE]
-         [] e.op = "delete" -> IF M.ex THEN NoMeta ELSE [M EXCEPT !.bad = TRUE]
-         [] e.op = "expand" -> IF M.ex THEN [M EXCEPT !.isr = @ \cup {e.x}] ELSE [M EXCEPT !.bad = TRUE]
-         [] e.op = "shrink" -> IF M.ex THEN [M EXCEPT !.isr = @ \ {e.x}] ELSE [M EXCEPT !.bad = TRUE]
-         [] e.op = "elect"  -> IF M.ex THEN [M EXCEPT !.ld = e.x, !.le = k] ELSE [M EXCEPT !.bad = TRUE]
+         [] e.op = "delete" -> IF M.ex THEN NoMeta ELSE Bad(M)
+         [] e.op = "expand" -> IF M.ex THEN [M EXCEPT !.isr = @ \cup {e.x}] ELSE Bad(M)
+         [] e.op = "shrink" -> IF M.ex THEN [M EXCEPT !.isr = @ \ {e.x}] ELSE Bad(M)
+         [] e.op = "elect"  -> IF M.ex THEN [M EXCEPT !.ld = e.x, !.le = k] ELSE Bad(M)
          [] OTHER -> M
 
 RECURSIVE FoldTo(_, _)
 FoldTo(lg, k) == IF k = 0 THEN NoMeta ELSE Eff(lg[k], FoldTo(lg, k - 1), k)
 MetaOf(lg, k) == FoldTo(lg, k)
+\* entry k can be applied: the stream to be created does not exist, the stream / partition to be changed exists
+Applicable(lg, k) == IF lg[k].op = "create" THEN ~FoldTo(lg, k - 1).ex ELSE FoldTo(lg, k - 1).ex
 MetaAt(k) == FoldTo(log, k)
 View(s) == MetaAt(applied[s])
 
@@ -134,9 +139,14 @@ Checked(I, i, M) ==
 
 \* what happens at server s once its FSM has applied k entries: futures of its proposed instances complete,
 \* a barrier in applyOperation completes (then the preconditions are checked), leadershipAcquired completes
-Replies(I, s, k) == FinAll(I, {i \in Ids : I[i].at = s /\ I[i].pc = "proposed" /\ I[i].idx <= k}, "ok")
+RECURSIVE FinApplied(_, _, _)
+FinApplied(I, S, lg) ==
+  IF S = {} THEN I
+  ELSE LET i == CHOOSE j \in S : \A k \in S : j <= k IN
+       FinApplied(Fin(I, i, IF Applicable(lg, I[i].idx) THEN "ok" ELSE "refused"), S \ {i}, lg)
+Replies(I, lg, s, k) == FinApplied(I, {i \in Ids : I[i].at = s /\ I[i].pc = "proposed" /\ I[i].idx <= k}, lg)
 AfterApply(I, lg, s, k) ==
-  LET I1 == Replies(I, s, k)
+  LET I1 == Replies(I, lg, s, k)
       h == {i \in Ids : I1[i].at = s /\ I1[i].pc = "barrier" /\ I1[i].bar <= k} IN
   IF h = {} THEN I1 ELSE LET i == CHOOSE j \in h : TRUE IN Checked(I1, i, MetaOf(lg, k))
 
@@ -276,11 +286,12 @@ DoAcquired(s) == G_Acquired(s) /\ Set(N_Acquired(s))
 \* What X04 demands (property level)
 
 \* (1) every committed entry finds its precondition true in the state in which it is applied
-EntryCurrent(lg, k) == Pre(lg[k], MetaOf(lg, k - 1))
+\*     - or it is refused when applied: it has no effect
+Effective(lg, k) == MetaOf(lg, k) # MetaOf(lg, k - 1)
+EntryCurrent(lg, k) == Pre(lg[k], MetaOf(lg, k - 1)) \/ ~Effective(lg, k)
 X04_Current == \A k \in 1..Len(log) : EntryCurrent(log, k)
 
 \* (2) at most one effect per request
-Effective(lg, k) == MetaOf(lg, k) # MetaOf(lg, k - 1)
 X04_AtMostOneEffect ==
   \A k1, k2 \in 1..Len(log) : (k1 < k2 /\ log[k1].r # 0 /\ log[k1].r = log[k2].r) => ~(Effective(log, k1) /\ Effective(log, k2))
 
@@ -288,11 +299,12 @@ X04_AtMostOneEffect ==
 \*     proposed itself has applied it
 X04_OkCommitted ==
   \A i \in Ids : (inst[i].pc = "done" /\ inst[i].res = "ok") =>
-      /\ \E k \in 1..Len(log) : log[k].r = inst[i].r
+      /\ \E k \in 1..Len(log) : log[k].r = inst[i].r /\ Applicable(log, k)
       /\ inst[i].idx > 0 => applied[inst[i].at] >= inst[i].idx
-\*     a refusal (precondition) of an instance implies that this instance proposed nothing
+\*     a refusal of an instance implies that this instance proposed nothing or that its entry has no effect
 X04_RefusedNoEntry ==
-  \A i \in Ids : (inst[i].pc = "done" /\ inst[i].res = "refused") => inst[i].idx = 0
+  \A i \in Ids : (inst[i].pc = "done" /\ inst[i].res = "refused" /\ inst[i].idx > 0 /\ inst[i].idx <= Len(log))
+                   => ~Effective(log, inst[i].idx)
 
 \* no server dies
 X04_NoCrash == ~crashed
@@ -302,11 +314,10 @@ P_LogStep(isPropose) ==
   /\ Len(log') <= Len(log) + (IF isPropose THEN 1 ELSE 0)
   /\ Len(log') >= Len(log) /\ SubSeq(log', 1, Len(log)) = log
 
-\* the propose step: the appended entry is the request's and its precondition holds in the committed state
+\* the propose step: the appended entry is the request's (X04_Current judges it in the log)
 P_Propose(i) ==
   Len(log') = Len(log) + 1 =>
-     /\ log'[Len(log')].op = inst[i].op
-     /\ Pre(inst[i], MetaAt(Len(log)))
+     log'[Len(log')].op = inst[i].op
 
 TypeOK ==
   /\ \A s \in Servers : applied[s] \in 0..Len(log)
